@@ -95,12 +95,10 @@ class ConfigDict(ComposedNode, dict):
             ComposedNode.ayns.remove_child(self, k)
         return val
 
-    def popitem(self, k, d=None):
-        val = dict.popitem(self, k, d=d)
-        if self.has_child(k):
-            ComposedNode.ayns.remove_child(self, k)
-            #val.set_parent(None, None)
-        return val
+    def popitem(self):
+        k, val = dict.popitem(self)
+        ComposedNode.ayns.remove_child(self, k)
+        return k, val
 
     def update(self, other, **kwargs):
         try:
